@@ -272,10 +272,15 @@ def run_batch(cid, tier, base_seed, count, wall, nproc=None):
     return agg
 
 
-def shrink_and_confirm(cid, tier, seed, sig):
+def shrink_and_confirm(cid, tier, seed, sig, history=None):
     """In a fresh process: re-run seed, shrink, write the replay file; then confirm it in another fresh process."""
     path = os.path.join(VERIF, "replays", "%s-%d-%s.json" % (cid, seed, h64(sig)[:8]))
-    p = _spawn(["--shrink", cid, tier, str(seed), sig, path])
+    if os.path.exists(path):
+        os.remove(path)
+    if history:
+        p = _spawn(["--shrink", cid, tier, str(seed), sig, path, ",".join(map(str, history))])
+    else:
+        p = _spawn(["--shrink", cid, tier, str(seed), sig, path])
     try:
         so, se = p.communicate(timeout=400)
     except subprocess.TimeoutExpired:
@@ -356,7 +361,19 @@ def check_main(cid, tier):
         how = "reproduced in %d runs, e.g. seed %d" % (e["n"], e["seeds"][0]) if e else "not reached by this run's seeds"
         print("KNOWN-FINDING: property=%s %s (%s) %s" % (cid, kf["sig"], how, kf.get("text", "")))
     for sig, e in reported[:3]:
-        path, err = shrink_and_confirm(cid, tier, e["seeds"][0], sig)
+        path, err = None, None
+        for seed_ in e["seeds"][:3]:
+            path, err = shrink_and_confirm(cid, tier, seed_, sig)
+            if path is not None:
+                break
+        if path is None:
+            # not reproducible from a fresh process: the violation may need state the code under test carries over from
+            # earlier runs in the same process (a process-wide cache): replay it with the runs that came before it
+            i_ = e["seeds"][0] - base_seed * 1_000_000
+            history = [base_seed * 1_000_000 + j for j in range(i_ % NPROC, i_, NPROC)]
+            if history:
+                path, err2 = shrink_and_confirm(cid, tier, e["seeds"][0], sig, history=history)
+                err = err if path is None else None
         if path is None:
             print("HARNESS-ERROR: property=%s violation %s at seed %d did not replay: %s" % (
                 cid, sig, e["seeds"][0], err))
@@ -382,7 +399,60 @@ def check_main(cid, tier):
 
 
 # ------------------------------------------------------------------------------------------------ shrink / replay
-def shrink_main(cid, tier, seed, sig, path):
+def shrink_history_main(cid, tier, seed, sig, path, history):
+    """The violation needs runs that came before it in the same process.  Which ones is found by running in fresh
+    processes: first the whole history, then with one earlier run dropped at a time (greedy, from the front)."""
+    def attempt(hist):
+        tmp = path + ".try"
+        rep = {"property": cid, "seed": seed, "tier": tier, "signature": sig, "scenario": None, "trace": None,
+               "history": hist, "digest": None, "detail": "", "shrink": {"history_of": len(history)}}
+        with open(tmp, "w") as f:
+            json.dump(rep, f)
+        p = _spawn(["--replay", tmp])
+        try:
+            so, _ = p.communicate(timeout=300)
+        except subprocess.TimeoutExpired:
+            p.kill()
+            return False
+        finally:
+            if os.path.exists(tmp):
+                os.remove(tmp)
+        return p.returncode == 1 and "REPRODUCED" in so
+    if not attempt(history):
+        print("NOT-REPRODUCED with history")
+        return 2
+    hist = list(history)
+    # the most recent runs are the most likely carriers: try short suffixes first
+    for n in (1, 2, 4, 8):
+        if n < len(hist) and attempt(hist[-n:]):
+            hist = hist[-n:]
+            break
+    i = 0
+    while i < len(hist) and len(hist) > 1:
+        cand = hist[:i] + hist[i + 1:]
+        if attempt(cand):
+            hist = cand
+        else:
+            i += 1
+    mod = load_check(cid)
+    for h_ in hist:
+        run_one(mod, h_, tier)
+    final = run_one(mod, seed, tier)
+    detail = [v for v in final["violations"] if v["sig"] == sig]
+    rep = {"property": cid, "seed": seed, "tier": tier, "signature": sig, "scenario": None, "trace": None, "history": hist,
+           "digest": final.get("digest"), "detail": str(detail[0].get("detail")) if detail else "",
+           "shrink": {"history_of": len(history), "history_kept": len(hist),
+                      "note": "not reproducible from a fresh process: needs state the code under test carries over from "
+                              "the listed earlier runs (same process, in this order)"}}
+    with open(path, "w") as f:
+        json.dump(rep, f, indent=1, default=str)
+    print("shrunk history %d -> %d" % (len(history), len(hist)))
+    return 0
+
+
+def shrink_main(cid, tier, seed, sig, path, history=None):
+    if history:
+        return shrink_history_main(cid, tier, seed, sig, path, history)
     mod = load_check(cid)
     res = run_one(mod, seed, tier)
     res["tier"] = tier
@@ -406,7 +476,13 @@ def shrink_main(cid, tier, seed, sig, path):
 def replay_main(path):
     rep = json.load(open(path))
     mod = load_check(rep["property"])
-    res = run_one(mod, rep["seed"], rep.get("tier", "quick"), scenario=rep["scenario"], trace=rep["trace"])
+    for h_ in rep.get("history") or ():
+        # runs that came before it in the same process (the violation needs what they left behind in the code under test)
+        run_one(mod, h_, rep.get("tier", "quick"))
+    if rep.get("scenario") is None:
+        res = run_one(mod, rep["seed"], rep.get("tier", "quick"))
+    else:
+        res = run_one(mod, rep["seed"], rep.get("tier", "quick"), scenario=rep["scenario"], trace=rep["trace"])
     got = sigs_of(res)
     ok = rep["signature"] in got
     same_digest = res.get("digest") == rep.get("digest")
